@@ -6,6 +6,7 @@
 //!   vharness tabulate types|fullwidth            -> translator input (exhaustive tabulation)
 mod bin;
 mod cli;
+mod clicase;
 mod dict;
 mod filt;
 mod gen_bin;
@@ -38,6 +39,7 @@ fn main() {
             match family.as_str() {
                 "C01" => gen_pred::gen_c01(&mut out, thorough, seed),
                 "C09" | "C10" | "C11" | "C12" => gen_train::gen(&mut out, family, thorough, seed),
+                "C20" => clicase::gen(&mut out, thorough, seed),
                 "C19" => dict::gen(&mut out, thorough, seed),
                 "C17" => kytea::gen(&mut out, thorough, seed),
                 "C14" => gen_pred::gen_c14(&mut out, thorough, seed),
@@ -118,6 +120,7 @@ fn run_case(line: &str, fails: &mut Vec<(String, String)>, effective: &mut Optio
         ["TR", ..] => train::run(&toks, fails, effective),
         [k, ..] if matches!(*k, "KY" | "KYE" | "KYX") => kytea::run(&toks, fails),
         [k, ..] if matches!(*k, "RD" | "WJ" | "WP") => dict::run(&toks, fails),
+        [k, ..] if matches!(*k, "CP" | "CE") => clicase::run(&toks, fails),
         _ => "bad-case".into(),
     }
 }
